@@ -169,16 +169,34 @@ def _shapes(run, M):
     sites = []
     for q in ("sigpy.linop.ArrayToBlocks.__init__", "sigpy.linop.BlocksToArray.__init__", "sigpy.block.array_to_blocks"):
         f = M.func(q)
-        # the site is the assignment whose value is a comprehension over zip(.., blk_shape, blk_strides) (whatever the local is called)
-        for n in ast.walk(f.node):
-            if isinstance(n, ast.Assign) and isinstance(n.targets[0], ast.Name) and isinstance(n.value, (ast.ListComp, ast.GeneratorExp, ast.Call)):
-                comps = [x for x in ast.walk(n.value) if isinstance(x, (ast.ListComp, ast.GeneratorExp))]
-                if len(comps) != 1 or not any(isinstance(c, ast.Call) and isinstance(c.func, ast.Name) and c.func.id == "zip"
-                                              and any(isinstance(a_, ast.Name) and a_.id == "blk_strides" for a_ in c.args) for c in ast.walk(comps[0])):
-                    continue
-                vn = VN(M, f)
-                t = vn.ev(comps[0], State({}))
-                sites.append((q, t, n))
+        # the site is whatever builds a list over zip(<sizes>, blk_shape, blk_strides): a comprehension, or the append-loop spelling it out
+        # (value numbering reads both as the same comprehension term); located by value, whatever the local is called
+        vn = VN(M, f, loop_hook=lambda v_, s_, st_: None)
+        found = None
+        try:
+            outs_ = vn.run([s_ for s_ in f.body], State({}))
+        except Unrecognised:
+            outs_ = []
+        for o_ in outs_:
+            for k_, v_ in o_.env.items():
+                if isinstance(v_, T.Poly):
+                    a_ = v_.single_atom()
+                    if a_ is not None and a_[0] == "app" and a_[1] == "comp" and len(a_[2]) == 2:
+                        z_ = T.dec(a_[2][1])
+                        za_ = z_.single_atom() if isinstance(z_, T.Poly) else None
+                        if za_ is not None and za_[1] == "zip" and len(za_[2]) == 3 and "blk_strides" in T.symbols(z_):
+                            found = v_
+            if found is not None:
+                break
+        if found is None:
+            # constructors of the operators: the comprehension sits in an assignment evaluated before super().__init__
+            for n in ast.walk(f.node):
+                if isinstance(n, (ast.ListComp, ast.GeneratorExp)) and any(isinstance(c, ast.Call) and isinstance(c.func, ast.Name) and c.func.id == "zip"
+                                                                            and any(isinstance(a_, ast.Name) and a_.id == "blk_strides" for a_ in c.args) for c in ast.walk(n)):
+                    found = VN(M, f).ev(n, State({}))
+                    break
+        if found is not None:
+            sites.append((q, found, f.node))
     run.floor("X7", 3, len(sites), "sites computing the number of blocks")
     for q, t, n in sites:
         a = t.single_atom() if isinstance(t, T.Poly) else None
